@@ -93,10 +93,10 @@ AttrValSet(d, i, nm) ==
     {d.attrs[i][n].v : n \in {m \in 1..Len(d.attrs[i]) : d.attrs[i][m].ns = <<>> /\ NameKey(d, d.attrs[i][m].k) = nm}}
 HasAttr(d, i, nm) == AttrValSet(d, i, nm) # {}
 AttrVal(d, i, nm) == CHOOSE v \in AttrValSet(d, i, nm) : TRUE     \* only when HasAttr
-\* HTML attribute names are matched case-insensitively whatever the document type (the library
-\* lower-cases the key) in the HTML-state pseudo-classes: lookup by lower-cased key
+\* attribute lookup of the HTML-state pseudo-classes: by name, ASCII-case-insensitively in HTML documents and exactly in XML / XHTML
+\* documents (get_attribute_by_name; the definition selectors [checked], [disabled] ... follow the same rule: C11)
 AttrValSetCI(d, i, nm) ==
-    {d.attrs[i][n].v : n \in {m \in 1..Len(d.attrs[i]) : Lower(d.attrs[i][m].k) = nm}}
+    {d.attrs[i][n].v : n \in {m \in 1..Len(d.attrs[i]) : NameKey(d, d.attrs[i][m].k) = nm}}
 
 \* character data that counts as text: "t" nodes only
 IsText(d, i) == d.kind[i] = "t"
